@@ -567,7 +567,6 @@ pub fn mock_gsd_case(ops: &mut Vec<String>) {
 }
 
 pub fn gen(ops: &mut Vec<String>, seed: u64, thorough: bool) {
-    let mut rng = Rng::new(seed, "prm", 0);
     mock_gsd_case(ops);
 
     // 1. `write_value_to_slice` directly: every type (incl. invalid bit positions) x boundary
@@ -707,5 +706,4 @@ pub fn gen(ops: &mut Vec<String>, seed: u64, thorough: bool) {
         let n = if built { r.range(3, if thorough { 24 } else { 16 }) } else { 1 };
         random_calls(ops, &mut r, &l, n);
     }
-    let _ = rng.next();
 }
